@@ -246,11 +246,68 @@ Verdict schemaProp(Ctx& c) {
   return pbt::pass();
 }
 
+// ---- every identifier translation leaves the schema consistent with a rebuild from its own content -------------------
+// Renaming with substitution, alias reset, duplicate elimination and merging all translate identifiers in formal and
+// text parts.  After such an operation - and after one further text edit, which relies on the maintained dependency
+// graphs - everything the schema reports (parse results, the three dependency graphs, resolved texts) must equal what a
+// schema rebuilt from the same records reports ("the schema is the old one up to the renaming: same dependency structure").
+Verdict translationProp(Ctx& c) {
+  sh::GenOpts o; o.maxOps = 8; o.merges = true;
+  const uint64_t idSeed = static_cast<uint64_t>(c.pick(1, 1000000));
+  const auto ops = sh::genHistory(c, o);
+  const int trans = c.ipick(0, 3);            // 0 rename with substitution, 1 reset aliases, 2 duplicate + delete duplicates, 3 merge
+  const int target = c.ipick(0, 11), follow = c.ipick(0, 11), followKind = c.ipick(0, 2);
+  static const char* texts[] = {"renamed", "new @{X1|nomn,sing}", "word @{D1|datv,plur}"};
+  std::vector<sh::Rec> mergeRecs; if (trans == 3) { const int r = c.ipick(1, 3); for (int j = 0; j < r; ++j) mergeRecs.push_back(sh::genRec(c)); }
+  for (size_t i = 0; i < ops.size(); ++i) c.show << (i ? "; " : "") << sh::showOp(ops[i]);
+  static const char* tn[] = {"rename", "ResetAliases", "duplicate+DeleteDuplicates", "MergeWith"};
+  c.show << " THEN " << tn[trans] << "(#" << target << ") THEN SetTerm(#" << follow << ",'" << texts[followKind] << "')";
+  c.exec();
+  sh::Executor ex(idSeed);
+  for (const auto& op : ops) (void)ex.apply(op);
+  auto& f = ex.form;
+  auto l = ex.list();
+  if (l.empty()) return pbt::discard("empty-schema");
+  const auto uid = l[static_cast<size_t>(target) % l.size()];
+  if (trans == 0) { const std::string na = std::string(1, sh::kindLetter(f.GetRS(uid).type)) + std::to_string(30 + target); (void)f.SetAliasFor(uid, na, true); }
+  else if (trans == 1) f.ResetAliases();
+  else if (trans == 2) {
+    // an exact duplicate that is mentioned by the text definition (and, if possible, the formal definition) of other
+    // constituents, so that eliminating it has mentions to translate
+    auto rec = f.Core().AsRecord(uid); rec.uid = 0x50000000u;
+    const auto dup = f.InsertCopy(rec);
+    const std::string dupAlias = f.GetRS(dup).alias;
+    const auto m1 = l[static_cast<size_t>(follow) % l.size()], m2 = l[static_cast<size_t>(follow + 1) % l.size()];
+    (void)f.SetDefinitionFor(m1, "see @{" + dupAlias + "|nomn,sing} here");
+    if (followKind != 0) (void)f.SetTermFor(m2, "of @{" + dupAlias + "|gent,sing}");
+    if (followKind == 2 && f.GetRS(m2).type == ccl::semantic::CstType::term) (void)f.SetExpressionFor(m2, dupAlias + "\xE2\x88\xAA" + dupAlias);
+    (void)f.Ops().DeleteDuplicates();
+  }
+  else { sh::RSForm other; for (auto& x : mergeRecs) other.InsertCopy(ex.record(x)); (void)f.Ops().MergeWith(other); }
+  {
+    const bool acyclic = !f.Texts().TermGraph().HasLoop();
+    const Verdict v = sh::compareWith(f, sh::rebuilt(f), "Load+UpdateState", tn[trans], acyclic);
+    if (v.kind != Verdict::PASS) return v;
+  }
+  l = ex.list();
+  if (!l.empty()) {
+    const auto fu = l[static_cast<size_t>(follow) % l.size()];
+    (void)f.SetTermFor(fu, texts[followKind]);
+    const bool acyclic = !f.Texts().TermGraph().HasLoop();
+    const Verdict v = sh::compareWith(f, sh::rebuilt(f), "Load+UpdateState", std::string(tn[trans]) + " then SetTerm", acyclic);
+    if (v.kind != Verdict::PASS) return v;
+  }
+  c.nontrivial = true;
+  c.label(std::string("translation:") + tn[trans]);
+  return pbt::pass();
+}
+
 }  // namespace
 
 int main(int argc, char** argv) {
   std::vector<pbt::Prop> props;
   props.push_back({"translate_strings", stringProp, 8000, 120000, false, false, "TranslateRS / SubstituteGlobals on texts with identifier spans known by construction"});
   props.push_back({"schema_rename", schemaProp, 1500, 25000, false, false, "SetAliasFor with substitution / ResetAliases on schemas reached by histories"});
+  props.push_back({"translation_consistency", translationProp, 1000, 20000, false, false, "rename / reset / delete duplicates / merge, then a text edit: schema vs a rebuild from its own records"});
   return pbt::main(argc, argv, "C08", props);
 }
